@@ -30,7 +30,8 @@ EXPLANATION = (
     "every leaf of a shrink_types result derives from an input; in merged TypedDicts a key is required exactly when every "
     "input has it as required and optional otherwise, for every combination of <=3 TypedDicts over <=2 keys and limits 0..3. "
     "Known finding: generator objects are typed Iterator[Any] (an Any without an empty container). "
-    "Not decided: inhabitation of each alternative by an actual runtime value."
+    "Added: the four inference functions are also interpreted TOGETHER on a grammar of ~90 small concrete values (atoms, class objects, list/tuple/set/dict/defaultdict of depth <= 2, lists of dicts, empty containers, non-string keys) x limits and on ~700 merged pairs, and the result is judged by an oracle written from the property; two-call histories sharing module state (a memo with an unsound key is reported); compat.types_equal decided by interpretation. "
+    "Not decided: inhabitation of alternatives for values outside the bounded grammar."
 )
 
 CONTAINERS = {"builtin:list", "builtin:set", "builtin:dict", "mod:collections.defaultdict", "builtin:tuple"}
